@@ -8,7 +8,8 @@ model (coq/Registry/Registry.v); after every event the messages every
 connection received (per socket, in order), the four query methods and
 ListNames (as a set) are compared.  The extracted specification
 (coq/Spec/RegistrySpec.v) runs alongside as the oracle, in its literal form
-and in the as-implemented form (the two recorded exceptions F4 / F4b)."""
+and in the as-implemented form (the recorded exception F4; the former F4b was fixed in /repo and is a
+regression input now: corpus/C04/f4b_*.json)."""
 import glob, json, multiprocessing, os, random, re, shutil, sys, tempfile
 import vlib
 
@@ -18,7 +19,7 @@ import registry_run
 HARNESSES = ()
 MLS = ("registry",)
 THEOREMS = ["C04_refines_partial", "C04_refines_outside_exceptions", "C04_exceptions_are_the_only_difference",
-            "C04_queue_position_refuted", "C04_limit_rerequest_refuted", "C04_full_statement_refuted",
+            "C04_queue_position_refuted", "C04_limit_spares_held_names", "C04_limit_rerequest", "C04_full_statement_refuted",
             "C04_single_primary", "C04_invariant", "C04_reserved", "C04_queries_agree", "C04_signals_before_reply",
             "C04_reply_code_meaning", "C04_no_assertion_reached"]
 
@@ -130,7 +131,7 @@ def gen_targeted():
     # F4: REPLACE_EXISTING that cannot replace: new requester / already queued requester
     cases.append((512, pr, three + [R(0, A, 0), R(1, A, 0), R(2, A, 2), R(1, A, 2), R(3, A, 3), L(0, A), "D1", "D2"]))
     cases.append((512, pr, three + [R(0, A, 0), R(1, A, 0), R(2, A, 0), R(3, A, 0), R(3, A, 2), R(2, A, 6), R(2, A, 2)]))
-    # F4b: re-request at the limit by the owner and by a waiter
+    # formerly F4b (fixed): re-request at the limit by the owner and by a waiter must not be refused
     cases.append((2, pr, three + [R(0, A, 1), R(0, A, 0), R(0, A, 4), R(1, A, 0), R(1, A, 1), R(1, A, 4), R(0, B, 0), L(0, A), R(0, B, 0), R(1, A, 0)]))
     cases.append((1, pr, three + [R(0, A, 0), L(0, A), R(1, B, 7)]))
     cases.append((3, pr, three + [R(0, A, 0), R(0, B, 0), R(0, VALID[2], 0), R(1, A, 0), R(1, B, 0), R(1, A, 4), R(1, VALID[2], 0), L(0, A), R(0, A, 0)]))
@@ -226,8 +227,6 @@ def classify_exception(ev, m, l):
     if ev[0] != "R":
         return None
     flags = int(ev.split(",")[2])
-    if "err:LimitsExceeded" in mo and "err:LimitsExceeded" not in lo:
-        return "F4b"
     if flags & 2 and not flags & 4 and mo == lo and mn == ln and mq != lq:
         # same messages, same names, only the queue order differs
         def qsets(q):
